@@ -1,4 +1,4 @@
-//go:build c20
+//go:build c19 || c20
 
 package streams
 
@@ -266,6 +266,9 @@ func c20ReplaceEval(f []string) (out string, tags []string) {
 			break
 		}
 	}
+	if strings.Contains(res, `\n`) || strings.Contains(res, `\r`) {
+		tags = append(tags, "escaped-line-break-in-output")
+	}
 	if empty != "" && strings.Contains(res, empty) {
 		tags = append(tags, "empty-marker-in-output")
 	}
@@ -310,7 +313,7 @@ func c20Requests() []c20Req {
 		{raw: c20Raw("POST", "/dir/", "HTTP/1.0", "Host", "localhost", "Content-Type", "application/json",
 			"X-Inj", "} {?q} {"),
 			remote: "[2001:db8::1]:443", rewrite: hx.HS("/re/written/{host}?r={?q}"), tls: true, reqid: hx.HS("id-{status}"), mitm: "1",
-			recorder: "-", resphdr: "", sets: [][2]string{{"mykey", "custom{size}"}, {"method", "OVERRIDDEN"}, {"mykey", "second"}}},
+			recorder: "-", resphdr: "", sets: [][2]string{{"mykey", "custom{size}"}, {"method", "OVERRIDDEN"}, {"mykey", "second"}, {"nl", "x\r\ny\n{status}"}}},
 		{raw: c20Raw("GET", `/{path}/\{x\}?{query}&q={?q}&%7B=%7D`, "HTTP/1.1", "Host", "[::1]:80", "Cookie", `a="{~a}"; {b}=c; sid=x`),
 			remote: "nonsense", rewrite: "-", reqid: hx.HS(""), mitm: "0", recorder: "404:0", resphdr: ""},
 		{raw: c20Raw("OPTIONS", "*", "HTTP/1.1", "Host", "a.b.c.d.e", "X-Inj", "{>X-Inj}"),
@@ -342,7 +345,7 @@ var c20Keys = []string{
 	"{label1}", "{label2}", "{label3}", "{label5}", "{label6}", "{label0}", "{label}", "{label+1}", "{label-1}", "{labelx}",
 	"{label01}", "{label99999999999999999999}", "{label1x}", "{labe}",
 	// custom, unknown, odd
-	"{mykey}", "{foo}", "{}", "{ }", "{Method}", "{method }", "{>", "{status", "status}", `{\{}`, `{\}}`, `{a{b}c}`, `{>X-Inj\}}`,
+	"{mykey}", "{nl}", "{foo}", "{}", "{ }", "{Method}", "{method }", "{>", "{status", "status}", `{\{}`, `{\}}`, `{a{b}c}`, `{>X-Inj\}}`,
 	`\{method}`, `{method\}`, `\\{method}`, "{{method}}", "{when}x"[:0],
 }
 
@@ -376,7 +379,7 @@ func c20RandReq(g *hx.Gen) c20Req {
 	}
 	hosts := []string{"www.example.com", "example.com:8080", "localhost", "[::1]:443", "a.b.c.d", "", "x..y", "10.0.0.7:80", "h:"}
 	methods := []string{"GET", "POST", "HEAD", "PUT", "DELETE", "X{M}"}
-	pathAtoms := []string{"/", "a", "b.txt", "{path}", "%7Bx%7D", "%20", "%0A", "dir/", `\{`, ".", "..", "//"}
+	pathAtoms := []string{"/", "a", "b.txt", "{path}", "%7Bx%7D", "%20", "%0A", "%0D%0A", "dir/", `\{`, ".", "..", "//"}
 	p := "/"
 	for i, n := 0, g.Rng.Intn(4); i < n; i++ {
 		p += hx.Pick(g.Rng, pathAtoms)
@@ -428,7 +431,7 @@ func c20RandReq(g *hx.Gen) c20Req {
 		r.resphdr = c20Multi(h)
 	}
 	for i, n := 0, g.Rng.Intn(3); i < n && g.Rng.Chance(1, 2); i++ {
-		r.sets = append(r.sets, [2]string{hx.Pick(g.Rng, []string{"mykey", "method", "status", ">X-Inj", "", "foo"}), txt(1 + g.Rng.Intn(2))})
+		r.sets = append(r.sets, [2]string{hx.Pick(g.Rng, []string{"mykey", "method", "status", ">X-Inj", "", "foo"}), txt(1+g.Rng.Intn(2)) + hx.Pick(g.Rng, []string{"", "", "\n", "\r\nforged"})})
 	}
 	return r
 }
